@@ -1,7 +1,1094 @@
-//! C05 — not implemented yet.
+//! C05 — BAM record encode/decode are inverse; reject-not-wrap; the stored bin is the spec's
+//! `reg2bin`; >65 535 CIGAR ops travel through the `CG` convention; the lazy field views of a raw
+//! record agree with its eager decode.
 
 use crate::engine::*;
+use crate::r#gen::aln::{self, AlnDoc, AlnHeader, AlnRecord, AuxValue, B, CigarSpec, HeaderParams, Mode, Norm, QualSpec, SeqSpec, Tag, Target};
+use crate::ensure_eq;
+use crate::oracle::{bam_raw, bgzf_walk};
+use noodles_bam as bam;
+use noodles_sam as sam;
+use proptest::prelude::*;
+use sam::alignment::RecordBuf;
+use sam::alignment::io::Write as _;
+use serde::{Deserialize, Serialize};
+
+fn f(sig: &str, msg: impl Into<String>) -> Vec<Fail> {
+    vec![Fail::new(sig, msg)]
+}
+
+// ---------------------------------------------------------------------------------------------
+// shared pieces (also used by C06)
+// ---------------------------------------------------------------------------------------------
+
+/// Write `header` and `records` through `bam::io::Writer::new` (BGZF). Every record must be accepted.
+pub fn write_bam(header: &sam::Header, records: &[RecordBuf], sig_prefix: &str) -> Result<Vec<u8>, Vec<Fail>> {
+    let mut w = bam::io::Writer::new(Vec::new());
+    w.write_header(header).map_err(|e| f(&format!("{sig_prefix}.header-rejected"), format!("BAM write_header: {e}")))?;
+    for (i, r) in records.iter().enumerate() {
+        w.write_alignment_record(header, r).map_err(|e| f(&format!("{sig_prefix}.valid-rejected"), format!("BAM writer rejects valid record #{i}: {e} ({:?})", describe_err(&e))))?;
+    }
+    w.try_finish().map_err(|e| f(&format!("{sig_prefix}.finish-error"), format!("BAM try_finish: {e}")))?;
+    Ok(w.into_inner().into_inner())
+}
+
+fn describe_err(e: &std::io::Error) -> String {
+    let mut s = format!("{e}");
+    let mut src = std::error::Error::source(e);
+    while let Some(x) = src {
+        s.push_str(&format!(" <- {x}"));
+        src = x.source();
+    }
+    s
+}
+
+/// Read header and all records eagerly, re-using one `RecordBuf` (as callers do).
+pub fn read_bam_eager(bytes: &[u8], sig_prefix: &str) -> Result<(sam::Header, Vec<AlnRecord>), Vec<Fail>> {
+    let mut r = bam::io::Reader::new(bytes);
+    let h = r.read_header().map_err(|e| f(&format!("{sig_prefix}.read-header-error"), format!("BAM read_header: {}", describe_err(&e))))?;
+    let mut rec = RecordBuf::default();
+    let mut out = Vec::new();
+    loop {
+        match r.read_record_buf(&h, &mut rec) {
+            Ok(0) => break,
+            Ok(_) => out.push(AlnRecord::from_noodles(&rec)),
+            Err(e) => return Err(f(&format!("{sig_prefix}.read-error"), format!("BAM read_record_buf #{}: {}", out.len(), describe_err(&e)))),
+        }
+    }
+    Ok((h, out))
+}
+
+/// Push one failure per differing field, `"<prefix>.<field>"`; aux differences that are only a
+/// matter of order get `"<prefix>.aux-order"`.
+pub fn push_record_diffs(fails: &mut Fails, prefix: &str, what: &str, got: &AlnRecord, want: &AlnRecord) {
+    for (field, msg) in got.diff(want) {
+        let mut sig = format!("{prefix}.{field}");
+        if field == "aux" {
+            let (mut a, mut b) = (got.aux.clone(), want.aux.clone());
+            a.sort_by_key(|x| x.0);
+            b.sort_by_key(|x| x.0);
+            if a == b {
+                sig = format!("{prefix}.aux-order");
+            }
+        }
+        fails.push(sig, format!("{what}: {field}: got {msg} (got vs want)"));
+    }
+}
+
+// ---------------------------------------------------------------------------------------------
+// oracle pieces
+// ---------------------------------------------------------------------------------------------
+
+/// Compare the raw record (independent decode) with the model. `want` is explicit and unfolded.
+fn check_raw(fails: &mut Fails, path: &str, i: usize, want: &AlnRecord, raw: &bam_raw::RawRecord) -> Option<i64> {
+    let what = format!("raw record #{i}{path}");
+    let mut overflow = false;
+    macro_rules! eq {
+        ($sig:expr, $got:expr, $want:expr, $name:expr) => {{
+            let (g, w) = (&$got, &$want);
+            if g != w {
+                fails.push($sig, format!("{what}: {} = {} but the record has {}", $name, trunc(&format!("{:?}", g), 300), trunc(&format!("{:?}", w), 300)));
+            }
+        }};
+    }
+    eq!("c05.raw.ref-id", raw.ref_id as i64, want.ref_id.map(|x| x as i64).unwrap_or(-1), "refID");
+    eq!("c05.raw.pos", raw.pos as i64, want.pos.map(|x| x as i64 - 1).unwrap_or(-1), "pos");
+    eq!("c05.raw.mapq", raw.mapq, want.mapq.unwrap_or(255), "mapq");
+    eq!("c05.raw.flag", raw.flag, want.flags, "flag");
+    eq!("c05.raw.next-ref-id", raw.next_ref_id as i64, want.mate_ref_id.map(|x| x as i64).unwrap_or(-1), "next_refID");
+    eq!("c05.raw.next-pos", raw.next_pos as i64, want.mate_pos.map(|x| x as i64 - 1).unwrap_or(-1), "next_pos");
+    eq!("c05.raw.tlen", raw.tlen, want.tlen, "tlen");
+    match raw.name() {
+        Ok(n) => {
+            eq!("c05.raw.name", n.map(B), want.name.clone(), "read_name");
+        }
+        Err(e) => fails.push("c05.raw.name", format!("{what}: {e} (l_read_name={}, bytes {:?})", raw.l_read_name, B(raw.read_name.clone()))),
+    }
+    let bases = want.bases();
+    let folded: Vec<u8> = bases.iter().map(|b| aln::fold_base(*b)).collect();
+    eq!("c05.raw.l-seq", raw.l_seq as usize, bases.len(), "l_seq");
+    if raw.l_seq as usize == bases.len() {
+        eq!("c05.raw.seq", B(raw.bases()), B(folded), "seq (unpacked, high nibble first)");
+    }
+    let quals = want.quals();
+    if quals.is_empty() {
+        if !raw.qual.iter().all(|q| *q == 0xff) {
+            fails.push("c05.raw.qual", format!("{what}: qualities are missing but qual is not all 0xFF: {:?}", trunc(&format!("{:?}", raw.qual), 200)));
+        }
+    } else {
+        eq!("c05.raw.qual", raw.qual, quals, "qual");
+    }
+    // CIGAR (c)
+    let ops = want.cigar_ops();
+    let cg = raw.aux_by_tag(b"CG");
+    match raw.cigar_ops() {
+        Err(e) => fails.push("c05.raw.cigar", format!("{what}: {e}")),
+        Ok(raw_ops) => {
+            if ops.len() <= 65535 {
+                eq!("c05.raw.n-cigar-op", raw.n_cigar_op as usize, ops.len(), "n_cigar_op");
+                eq!("c05.raw.cigar", raw_ops, ops, "cigar");
+                if !cg.is_empty() {
+                    fails.push("c05.raw.cg-unexpected", format!("{what}: a CG field is present although the CIGAR has {} ops", ops.len()));
+                }
+            } else {
+                overflow = true;
+                let placeholder = vec![(4u8, bases.len() as u64), (3u8, want.ref_span())];
+                if raw_ops != placeholder {
+                    fails.push("c05.raw.cg-placeholder", format!("{what}: {} ops: stored CIGAR is {:?}, the specification prescribes kSmN = {:?}", ops.len(), trunc(&format!("{raw_ops:?}"), 200), placeholder));
+                }
+                let words: Vec<i64> = ops.iter().map(|(k, l)| ((l << 4) | *k as u64) as i64).collect();
+                if cg.len() != 1 {
+                    fails.push("c05.raw.cg-field", format!("{what}: {} ops: {} CG fields in the raw record", ops.len(), cg.len()));
+                } else {
+                    let a = cg[0];
+                    if a.ty != b'B' || a.subtype != Some(b'I') {
+                        fails.push("c05.raw.cg-field", format!("{what}: CG has type {}:{:?}, want B:I", a.ty as char, a.subtype.map(|c| c as char)));
+                    } else if a.count != Some(ops.len() as u32) || a.value != bam_raw::RawAuxValue::IntArray(words) {
+                        fails.push("c05.raw.cg-field", format!("{what}: CG array (count {:?}) does not hold the {} real operations", a.count, ops.len()));
+                    }
+                }
+            }
+        }
+    }
+    // aux, CG aside
+    let got: Vec<(Tag, String)> = raw.aux.iter().filter(|a| &a.tag != b"CG" || !overflow).map(|a| (Tag(a.tag), raw_aux_canonical(a))).collect();
+    let wanted: Vec<(Tag, String)> = want.aux.iter().map(|(t, v)| (*t, v.canonical())).collect();
+    if got != wanted {
+        let (mut a, mut b) = (got.clone(), wanted.clone());
+        a.sort();
+        b.sort();
+        let sig = if a == b { "c05.raw.aux-order" } else { "c05.raw.aux" };
+        fails.push(sig, format!("{what}: aux fields {} but the record has {}", trunc(&format!("{got:?}"), 400), trunc(&format!("{wanted:?}"), 400)));
+    }
+    // bin (d): asserted where the specification is unambiguous
+    let span = want.ref_span();
+    let unmapped_flag = want.flags & 4 != 0;
+    let expected_bin = match want.pos {
+        None => {
+            if unmapped_flag || span <= 1 {
+                Some(4680i64)
+            } else {
+                None
+            }
+        }
+        Some(p) => {
+            let pos0 = p as i64 - 1;
+            let end0 = pos0 + span.max(1) as i64;
+            if end0 <= 1 << 29 && (!unmapped_flag || span <= 1) { Some(bam_raw::record_bin(pos0, span)) } else { None }
+        }
+    };
+    if let Some(b) = expected_bin {
+        if raw.bin as i64 != b {
+            fails.push("c05.raw.bin", format!("{what}: bin = {} but reg2bin({:?}-1, +max(1,{span})) = {b}", raw.bin, want.pos));
+        }
+    }
+    expected_bin
+}
+
+/// Same rendering as `AuxValue::canonical`, from the independently decoded raw field.
+fn raw_aux_canonical(a: &bam_raw::RawAux) -> String {
+    use bam_raw::RawAuxValue as V;
+    match (&a.value, a.ty) {
+        (V::Int(n), b'A') => AuxValue::Char(*n as u8).canonical(),
+        (V::Int(n), t) => format!("{}:{n}", t as char),
+        (V::Float(b), _) => format!("f:0x{b:08x}"),
+        (V::Text(s), t) => format!("{}:{}", t as char, s.escape_ascii()),
+        (V::IntArray(v), _) => {
+            let mut s = format!("B:{}", a.subtype.unwrap_or(b'?') as char);
+            for x in v {
+                s.push_str(&format!(",{x}"));
+            }
+            s
+        }
+        (V::FloatArray(v), _) => {
+            let mut s = "B:f".to_string();
+            for b in v {
+                s.push_str(&format!(",0x{b:08x}"));
+            }
+            s
+        }
+    }
+}
+
+fn flat<T>(fails: &mut Fails, what: &str, field: &str, x: Option<std::io::Result<T>>) -> Option<Option<T>> {
+    match x {
+        None => Some(None),
+        Some(Ok(v)) => Some(Some(v)),
+        Some(Err(e)) => {
+            fails.push(format!("c05.lazy.error.{field}"), format!("{what}: lazy {field} returns Err({e}) on a record the eager decoder accepts"));
+            None
+        }
+    }
+}
+
+/// (e): every accessor of the lazy record against the eager decode `e` of the same bytes.
+fn check_lazy(fails: &mut Fails, i: usize, header: &sam::Header, lazy: &bam::Record, e: &AlnRecord, mid_sel: u16, reused: &mut RecordBuf) {
+    let what = format!("record #{i}");
+    macro_rules! eq {
+        ($field:expr, $got:expr, $want:expr) => {{
+            let (g, w) = (&$got, &$want);
+            if g != w {
+                fails.push(format!("c05.lazy.{}", $field), format!("{what}: lazy {} = {} but eager decode = {}", $field, trunc(&format!("{:?}", g), 300), trunc(&format!("{:?}", w), 300)));
+            }
+        }};
+    }
+    if let Some(v) = flat(fails, &what, "reference_sequence_id", lazy.reference_sequence_id()) {
+        eq!("reference_sequence_id", v.map(|x| x as u64), e.ref_id);
+    }
+    if let Some(v) = flat(fails, &what, "alignment_start", lazy.alignment_start()) {
+        eq!("alignment_start", v.map(|p| p.get() as u64), e.pos);
+    }
+    eq!("mapping_quality", lazy.mapping_quality().map(u8::from), e.mapq);
+    eq!("flags", u16::from(lazy.flags()), e.flags);
+    if let Some(v) = flat(fails, &what, "mate_reference_sequence_id", lazy.mate_reference_sequence_id()) {
+        eq!("mate_reference_sequence_id", v.map(|x| x as u64), e.mate_ref_id);
+    }
+    if let Some(v) = flat(fails, &what, "mate_alignment_start", lazy.mate_alignment_start()) {
+        eq!("mate_alignment_start", v.map(|p| p.get() as u64), e.mate_pos);
+    }
+    eq!("template_length", lazy.template_length(), e.tlen);
+    eq!("name", lazy.name().map(|n| B(n.to_vec())), e.name);
+    // CIGAR
+    let eops = e.cigar_ops();
+    let cigar = lazy.cigar();
+    match cigar.iter().collect::<std::io::Result<Vec<_>>>() {
+        Ok(ops) => {
+            let ops: Vec<(u8, u64)> = ops.iter().map(|op| (aln::code_of(op.kind()), op.len() as u64)).collect();
+            eq!("cigar", ops, eops);
+        }
+        Err(err) => fails.push("c05.lazy.error.cigar", format!("{what}: lazy cigar iteration fails: {err}")),
+    }
+    eq!("cigar.len", cigar.len(), eops.len());
+    eq!("cigar.is_empty", cigar.is_empty(), eops.is_empty());
+    // sequence
+    let ebases = e.bases();
+    let seq = lazy.sequence();
+    eq!("sequence.len", seq.len(), ebases.len());
+    eq!("sequence.is_empty", seq.is_empty(), ebases.is_empty());
+    eq!("sequence.iter", B(seq.iter().collect()), B(ebases.clone()));
+    eq!("sequence.iter.len", seq.iter().len(), ebases.len());
+    eq!("sequence.iter.rev", B(seq.iter().rev().collect()), B(ebases.iter().rev().copied().collect()));
+    let n = ebases.len();
+    let probe: Vec<usize> = if n <= 400 { (0..n).collect() } else { (0..200).chain(n - 200..n).collect() };
+    for &k in &probe {
+        if seq.get(k) != Some(ebases[k]) {
+            fails.push("c05.lazy.sequence.get", format!("{what}: lazy sequence.get({k}) = {:?}, eager base = {:?} (l_seq {n})", seq.get(k).map(|b| b as char), ebases[k] as char));
+            break;
+        }
+    }
+    eq!("sequence.get-past-end", seq.get(n), None::<u8>);
+    let mid = pick_idx(mid_sel, n + 1);
+    match seq.split_at_checked(mid) {
+        None => fails.push("c05.lazy.sequence.split", format!("{what}: split_at_checked({mid}) is None for l_seq {n}")),
+        Some((l, r)) => {
+            eq!("subsequence.len", (l.len(), r.len()), (mid, n - mid));
+            let lg: Vec<u8> = (0..l.len()).filter_map(|k| l.get(k)).collect();
+            let rg: Vec<u8> = (0..r.len()).filter_map(|k| r.get(k)).collect();
+            eq!("subsequence.get", (B(lg), B(rg)), (B(ebases[..mid].to_vec()), B(ebases[mid..].to_vec())));
+        }
+    }
+    if seq.split_at_checked(n + 1).is_some() {
+        fails.push("c05.lazy.sequence.split", format!("{what}: split_at_checked({}) is Some for l_seq {n}", n + 1));
+    }
+    // qualities
+    let equals = e.quals();
+    let q = lazy.quality_scores();
+    eq!("quality_scores.len", q.len(), equals.len());
+    eq!("quality_scores.is_empty", q.is_empty(), equals.is_empty());
+    eq!("quality_scores.iter", q.iter().collect::<Vec<u8>>(), equals);
+    eq!("quality_scores.as_bytes", q.as_bytes().to_vec(), equals);
+    // data
+    let data = lazy.data();
+    let mut got = Vec::new();
+    let mut data_ok = true;
+    for r in data.iter() {
+        match r.and_then(|(t, v)| AuxValue::from_lazy(&v).map(|v| (Tag(*AsRef::<[u8; 2]>::as_ref(&t)), v))) {
+            Ok(x) => got.push(x),
+            Err(err) => {
+                fails.push("c05.lazy.error.data", format!("{what}: lazy data iteration fails: {err}"));
+                data_ok = false;
+                break;
+            }
+        }
+    }
+    if data_ok {
+        if got != e.aux {
+            let extra_cg = got.iter().any(|(t, _)| &t.0 == b"CG") && !e.aux.iter().any(|(t, _)| &t.0 == b"CG");
+            let without: Vec<_> = got.iter().filter(|(t, _)| &t.0 != b"CG").cloned().collect();
+            if extra_cg && without == e.aux {
+                fails.push("c05.lazy.data.cg-visible", format!("{what}: lazy data() still lists the CG field ({} ops) that the eager decoder consumes while restoring the CIGAR", eops.len()));
+            } else {
+                fails.push("c05.lazy.data", format!("{what}: lazy data = {} but eager decode = {}", trunc(&format!("{got:?}"), 400), trunc(&format!("{:?}", e.aux), 400)));
+            }
+        }
+        eq!("data.is_empty", data.is_empty(), got.is_empty());
+        for (t, v) in &e.aux {
+            match data.get(&t.0) {
+                Some(Ok(l)) => match AuxValue::from_lazy(&l) {
+                    Ok(l) => {
+                        if &l != v {
+                            fails.push("c05.lazy.data.get", format!("{what}: lazy data.get({t:?}) = {l:?}, eager = {v:?}"));
+                        }
+                    }
+                    Err(err) => fails.push("c05.lazy.error.data", format!("{what}: lazy data.get({t:?}) array iteration fails: {err}")),
+                },
+                other => fails.push("c05.lazy.data.get", format!("{what}: lazy data.get({t:?}) = {:?}, eager = {v:?}", other.map(|r| r.map(|_| "value")))),
+            }
+        }
+        if !e.aux.iter().any(|(t, _)| &t.0 == b"zz") && !got.iter().any(|(t, _)| &t.0 == b"zz") && data.get(b"zz").is_some() {
+            fails.push("c05.lazy.data.get", format!("{what}: lazy data.get(zz) finds a field that does not exist"));
+        }
+    }
+    // derived values through the alignment-record trait
+    let eager_buf = e.to_noodles();
+    if let Ok(eb) = &eager_buf {
+        use sam::alignment::Record as _;
+        if let Some(v) = flat(fails, &what, "alignment_end", sam::alignment::Record::alignment_end(lazy)) {
+            eq!("alignment_end", v.map(|p| p.get()), eb.alignment_end().map(|p| p.get()));
+        }
+        if let Some(v) = flat(fails, &what, "alignment_span", lazy.alignment_span()) {
+            eq!("alignment_span", v, eb.alignment_span());
+        }
+    }
+    // conversion
+    match RecordBuf::try_from_alignment_record(header, lazy) {
+        Ok(conv) => {
+            let conv = AlnRecord::from_noodles(&conv);
+            let cg_only = {
+                let mut c = conv.clone();
+                c.aux.retain(|(t, _)| &t.0 != b"CG");
+                c.diff(e).is_empty() && conv.aux.len() != e.aux.len()
+            };
+            if cg_only {
+                fails.push("c05.lazy.convert.cg-visible", format!("{what}: RecordBuf::try_from_alignment_record keeps the CG field ({} ops) that the eager decoder consumes", eops.len()));
+            } else {
+                for (field, msg) in conv.diff(e) {
+                    fails.push(format!("c05.lazy.convert.{field}"), format!("{what}: try_from_alignment_record vs eager: {field}: {msg}"));
+                }
+            }
+        }
+        Err(err) => fails.push("c05.lazy.convert.error", format!("{what}: RecordBuf::try_from_alignment_record fails: {err}")),
+    }
+    // the same conversion into a RecordBuf that already held the previous record
+    match reused.try_clone_from_alignment_record(header, lazy) {
+        Ok(()) => {
+            let mut conv = AlnRecord::from_noodles(reused);
+            if !e.aux.iter().any(|(t, _)| &t.0 == b"CG") {
+                conv.aux.retain(|(t, _)| &t.0 != b"CG"); // reported above as cg-visible
+            }
+            for (field, msg) in conv.diff(e) {
+                fails.push(format!("c05.lazy.convert-reused.{field}"), format!("{what}: try_clone_from_alignment_record into a used RecordBuf vs eager: {field}: {msg}"));
+            }
+        }
+        Err(err) => fails.push("c05.lazy.convert.error", format!("{what}: try_clone_from_alignment_record fails: {err}")),
+    }
+    let _ = format!("{lazy:?}");
+}
+
+struct DocOutcome {
+    bin_asserted: usize,
+    /// bit k set: a bin of level k (0 = the 512 Mb bin … 5 = 16 kb bins) was asserted; bit 6: 4680
+    bin_levels: u8,
+    blocks: usize,
+}
+
+fn bin_level_labels(mut p: Pass, levels: u8) -> Pass {
+    for (k, l) in ["bin-level0(512Mb)", "bin-level1(64Mb)", "bin-level2(8Mb)", "bin-level3(1Mb)", "bin-level4(128kb)", "bin-level5(16kb)", "bin-4680"].iter().enumerate() {
+        p = p.label_if(levels & (1 << k) != 0, l);
+    }
+    p
+}
+
+/// Which oracles `check_doc` runs.
+#[derive(Clone, Copy)]
+struct Oracles {
+    /// independent raw decode + bin, and eager read = normalise(record)
+    raw_eager: bool,
+    /// lazy accessors = eager decode, conversion, lazy → writer → eager
+    lazy: bool,
+}
+
+/// Oracles (a), (c), (d), (e) and the lazy pass-through on one document of valid records.
+fn check_doc(doc: &AlnDoc, mid_sel: u16, which: Oracles, fails: &mut Fails) -> Result<DocOutcome, Vec<Fail>> {
+    let header = doc.header.to_noodles().map_err(|e| f("c05.harness.model", e))?;
+    let bufs: Vec<RecordBuf> = doc.records.iter().map(|r| r.to_noodles()).collect::<Result<_, _>>().map_err(|e| f("c05.harness.model", e))?;
+    let bytes = write_bam(&header, &bufs, "c05")?;
+
+    // independent framing
+    let members = bgzf_walk::walk(&bytes).map_err(|e| f("c05.bgzf-malformed", e))?;
+    let stream = bgzf_walk::concat(&members);
+    let (raw_header, raw) = bam_raw::parse_stream(&stream).map_err(|e| f("c05.raw.framing", e))?;
+    ensure_eq!(raw.len(), doc.records.len(), "c05.raw.count", "number of records in the raw stream");
+    ensure_eq!(raw_header.refs.len(), doc.header.refs.len(), "c05.raw.n-ref", "n_ref");
+    let mut bin_asserted = 0;
+    let mut bin_levels = 0u8;
+    if which.raw_eager {
+        for (i, (want, rr)) in doc.records.iter().zip(&raw).enumerate() {
+            if let Some(b) = check_raw(fails, "", i, want, rr) {
+                bin_asserted += 1;
+                bin_levels |= 1 << match b {
+                    4680 if want.pos.is_none() => 6,
+                    0 => 0,
+                    1..=8 => 1,
+                    9..=72 => 2,
+                    73..=584 => 3,
+                    585..=4680 => 4,
+                    _ => 5,
+                };
+            }
+        }
+    }
+
+    // (a) eager
+    let (h2, eager) = read_bam_eager(&bytes, "c05")?;
+    ensure_eq!(eager.len(), doc.records.len(), "c05.rt.count", "number of records read back");
+    if which.raw_eager {
+        for (i, (got, want)) in eager.iter().zip(&doc.records).enumerate() {
+            push_record_diffs(fails, "c05.rt", &format!("record #{i} read back"), got, &want.normalized(Norm::BAM));
+        }
+    }
+    if which.raw_eager {
+        // the writer's generic code paths (a record type without the *_ref shortcuts)
+        let mut w = bam::io::Writer::from(Vec::new());
+        w.write_header(&header).map_err(|e| f("c05.header-rejected", format!("BAM write_header: {e}")))?;
+        let mut ok = true;
+        for (i, r) in bufs.iter().enumerate() {
+            if let Err(e) = w.write_alignment_record(&header, &aln::GenericRecord(r)) {
+                fails.push("c05.generic.valid-rejected", format!("BAM writer rejects valid record #{i} given as a generic alignment record: {}", describe_err(&e)));
+                ok = false;
+                break;
+            }
+        }
+        if ok {
+            let out = w.into_inner();
+            if out != stream {
+                // byte identity is not promised: decide by decoding, independently and with noodles
+                match bam_raw::parse_stream(&out) {
+                    Err(e) => fails.push("c05.raw.framing", format!("generic record path: {e}")),
+                    Ok((_, raws)) => {
+                        if raws.len() != doc.records.len() {
+                            fails.push("c05.raw.count", format!("generic record path: {} raw records for {}", raws.len(), doc.records.len()));
+                        } else {
+                            for (i, (want, rr)) in doc.records.iter().zip(&raws).enumerate() {
+                                check_raw(fails, " (generic record path)", i, want, rr);
+                            }
+                        }
+                    }
+                }
+                let mut rr = bam::io::Reader::from(&out[..]);
+                match rr.read_header() {
+                    Err(e) => fails.push("c05.generic.read-error", format!("read_header: {e}")),
+                    Ok(hg) => {
+                        let mut rec = RecordBuf::default();
+                        for (i, want) in doc.records.iter().enumerate() {
+                            match rr.read_record_buf(&hg, &mut rec) {
+                                Ok(n) if n > 0 => push_record_diffs(fails, "c05.generic.rt", &format!("record #{i} written through the generic record path"), &AlnRecord::from_noodles(&rec), &want.normalized(Norm::BAM)),
+                                Ok(_) => {
+                                    fails.push("c05.generic.count", format!("stream ends at record #{i}"));
+                                    break;
+                                }
+                                Err(e) => {
+                                    fails.push("c05.generic.read-error", format!("record #{i}: {}", describe_err(&e)));
+                                    break;
+                                }
+                            }
+                        }
+                    }
+                }
+            }
+        }
+    }
+    if !which.lazy {
+        return Ok(DocOutcome { bin_asserted, bin_levels, blocks: members.len() });
+    }
+
+    // (e) lazy, one re-used bam::Record; and the pass-through writer
+    let mut r = bam::io::Reader::new(&bytes[..]);
+    let h3 = r.read_header().map_err(|e| f("c05.read-header-error", format!("second read_header: {e}")))?;
+    let mut lazy = bam::Record::default();
+    let mut reused = RecordBuf::default();
+    let mut pass = bam::io::Writer::from(Vec::new());
+    let mut pass_ok = pass.write_header(&h3).is_ok();
+    for (i, e) in eager.iter().enumerate() {
+        match r.read_record(&mut lazy) {
+            Ok(0) => return Err(f("c05.lazy.count", format!("read_record reports EOF at record #{i} of {}", eager.len()))),
+            Ok(_) => {}
+            Err(err) => return Err(f("c05.lazy.read-error", format!("read_record #{i}: {err}"))),
+        }
+        check_lazy(fails, i, &h2, &lazy, e, mid_sel, &mut reused);
+        if pass_ok {
+            if let Err(err) = pass.write_alignment_record(&h3, &lazy) {
+                fails.push("c05.passthrough.write-error", format!("record #{i}: writing the lazy bam::Record back fails: {}", describe_err(&err)));
+                pass_ok = false;
+            }
+        }
+    }
+    match r.read_record(&mut lazy) {
+        Ok(0) => {}
+        other => fails.push("c05.lazy.count", format!("read_record after the last record returns {other:?}")),
+    }
+    if pass_ok {
+        let out = pass.into_inner();
+        let mut rr = bam::io::Reader::from(&out[..]);
+        match rr.read_header() {
+            Err(e) => fails.push("c05.passthrough.read-error", format!("read_header of the passed-through stream: {e}")),
+            Ok(h4) => {
+                let mut rec = RecordBuf::default();
+                for (i, e) in eager.iter().enumerate() {
+                    match rr.read_record_buf(&h4, &mut rec) {
+                        Ok(n) if n > 0 => {
+                            let got = AlnRecord::from_noodles(&rec);
+                            for (field, msg) in got.diff(e) {
+                                fails.push(format!("c05.passthrough.{field}"), format!("record #{i} after lazy read → write → eager read: {field}: {msg}"));
+                            }
+                        }
+                        Ok(_) => {
+                            fails.push("c05.passthrough.count", format!("passed-through stream ends at record #{i}"));
+                            break;
+                        }
+                        Err(err) => {
+                            let ops = e.cigar.n_ops();
+                            let sig = if ops > 65535 { "c05.passthrough.read-error.cg" } else { "c05.passthrough.read-error" };
+                            fails.push(sig, format!("record #{i} ({ops} CIGAR ops) after lazy read → write: eager read fails: {}", describe_err(&err)));
+                            break;
+                        }
+                    }
+                }
+            }
+        }
+    }
+    Ok(DocOutcome { bin_asserted, bin_levels, blocks: members.len() })
+}
+
+fn labels(mut p: Pass, doc: &AlnDoc) -> Pass {
+    let rs = &doc.records;
+    let any = |g: &dyn Fn(&AlnRecord) -> bool| rs.iter().any(|r| g(r));
+    p = p
+        .label_if(doc.header.refs.is_empty(), "no-dictionary")
+        .label_if(doc.header.refs.len() > 255, "refs>255")
+        .label_if(any(&|r| r.name.is_none()), "name-missing")
+        .label_if(any(&|r| r.name.as_ref().is_some_and(|n| n.len() >= 250)), "name>=250")
+        .label_if(any(&|r| r.name.as_ref().is_some_and(|n| n.len() == 254)), "name=254")
+        .label_if(any(&|r| r.bases().len() % 2 == 1), "odd-seq")
+        .label_if(any(&|r| r.bases().is_empty()), "seq-missing")
+        .label_if(any(&|r| !r.bases().is_empty() && r.quals().is_empty()), "qual-missing")
+        .label_if(any(&|r| r.bases().iter().any(|b| b.is_ascii_lowercase())), "bases-lowercase")
+        .label_if(any(&|r| r.bases().iter().any(|b| !aln::BAM_BASES.contains(&b.to_ascii_uppercase()))), "bases-non-iupac")
+        .label_if(any(&|r| r.cigar.n_ops() == 0), "cigar-empty")
+        .label_if(any(&|r| r.cigar.n_ops() >= 2), "cigar>=2")
+        .label_if(any(&|r| r.cigar.n_ops() > 65535), "cigar>65535")
+        .label_if(any(&|r| r.cigar.n_ops() == 65535), "cigar=65535")
+        .label_if(any(&|r| r.cigar_ops().iter().any(|(_, l)| *l >= (1 << 28) - 2)), "op-len~2^28")
+        .label_if(any(&|r| r.cigar_ops().iter().any(|(_, l)| *l == 0)), "op-len-0")
+        .label_if(any(&|r| r.pos.is_some_and(|p| p >= (1 << 31) - 2)), "pos~2^31")
+        .label_if(any(&|r| r.pos.is_some_and(|p| p >= 1 << 29)), "pos>=2^29")
+        .label_if(any(&|r| r.pos.is_some_and(|p| (p - 1) >> 14 != (r.end().unwrap_or(p) - 1) >> 14)), "span-crosses-16k")
+        .label_if(any(&|r| r.pos.is_none()), "pos-missing")
+        .label_if(any(&|r| r.mapq.is_none()), "mapq-255")
+        .label_if(any(&|r| r.flags & 0x800 != 0), "flag-0x800")
+        .label_if(any(&|r| r.tlen == i32::MIN || r.tlen == i32::MAX), "tlen-extreme")
+        .label_if(any(&|r| r.aux.is_empty()), "aux-none")
+        .label_if(any(&|r| r.aux.len() >= 4), "aux>=4");
+    for r in rs {
+        for (_, v) in &r.aux {
+            p = p.label(match v {
+                AuxValue::Char(_) => "aux:A",
+                AuxValue::I8(_) => "aux:c",
+                AuxValue::U8(_) => "aux:C",
+                AuxValue::I16(_) => "aux:s",
+                AuxValue::U16(_) => "aux:S",
+                AuxValue::I32(_) => "aux:i",
+                AuxValue::U32(_) => "aux:I",
+                AuxValue::Int(_) => "aux:int",
+                AuxValue::F32(_) => "aux:f",
+                AuxValue::Str(_) => "aux:Z",
+                AuxValue::Hex(_) => "aux:H",
+                AuxValue::ArrI8(_) => "aux:B:c",
+                AuxValue::ArrU8(_) => "aux:B:C",
+                AuxValue::ArrI16(_) => "aux:B:s",
+                AuxValue::ArrU16(_) => "aux:B:S",
+                AuxValue::ArrI32(_) => "aux:B:i",
+                AuxValue::ArrU32(_) => "aux:B:I",
+                AuxValue::ArrF32(_) => "aux:B:f",
+            });
+            p = p.label_if(v.array_len() == Some(0), "aux:B-empty").label_if(v.array_len().is_some_and(|n| n >= 256), "aux:B>=256").label_if(v.has_nonfinite_float(), "aux:nonfinite-float");
+        }
+    }
+    p.labels.sort();
+    p.labels.dedup();
+    p
+}
+
+fn nontrivial(doc: &AlnDoc) -> bool {
+    doc.records.iter().any(|r| !r.aux.is_empty() || r.cigar.n_ops() >= 2 || r.bases().len() % 2 == 1)
+}
+
+// ---------------------------------------------------------------------------------------------
+// sub-check 1: round trip / raw / bin / lazy
+// ---------------------------------------------------------------------------------------------
+
+#[derive(Clone, Debug, Serialize, Deserialize)]
+pub struct Case {
+    pub doc: AlnDoc,
+    /// selector for `sequence().split_at_checked`
+    pub mid_sel: u16,
+}
+
+fn strategy(tier: Tier) -> BoxedStrategy<Case> {
+    let hp = HeaderParams::for_tier(tier);
+    (aln::document_n(&hp, &Mode::bam(), 1, 3), any::<u16>()).prop_map(|(doc, mid_sel)| Case { doc, mid_sel }).boxed()
+}
+
+fn check(c: &Case) -> Verdict {
+    for r in &c.doc.records {
+        if let Some(why) = aln::invalid_reason(r, c.doc.header.n_ref(), Target::Bam) {
+            return fail1("c05.harness.generator", format!("generated record outside the BAM domain: {why}"));
+        }
+    }
+    let mut fails = Fails::new();
+    let out = check_doc(&c.doc, c.mid_sel, Oracles { raw_eager: true, lazy: true }, &mut fails)?;
+    let p = bin_level_labels(labels(Pass::new(nontrivial(&c.doc), key_of(c)).evals(c.doc.records.len() as u64), &c.doc).label_if(out.bin_asserted > 0, "bin-asserted").label_if(out.blocks > 2, "bgzf-blocks>=2"), out.bin_levels);
+    fails.finish(p)
+}
+
+// ---------------------------------------------------------------------------------------------
+// sub-check 2: >65 535 operations
+// ---------------------------------------------------------------------------------------------
+
+fn huge_strategy(tier: Tier) -> BoxedStrategy<Case> {
+    let hp = HeaderParams::for_tier(tier);
+    let mut mode = Mode::bam();
+    mode.max_aux = 3;
+    let n_ops = prop_oneof![2 => proptest::sample::select(vec![65_535u32, 65_536, 65_537, 70_000]), 3 => 65_536u32..=70_000];
+    (aln::header_with(&hp), aln::record_proto(&mode), n_ops, any::<u32>(), 0u8..4, any::<u16>())
+        .prop_map(|(header, mut r, n_ops, seed, shape, mid_sel)| {
+            r.cigar = CigarSpec::Huge { n_ops, seed };
+            match shape {
+                0 => {
+                    r.seq = SeqSpec::Bases(B::default());
+                    r.qual = QualSpec::Scores(vec![]);
+                }
+                1 => {
+                    r.seq = SeqSpec::Auto { seed };
+                    r.qual = QualSpec::Scores(vec![]);
+                }
+                _ => {
+                    r.seq = SeqSpec::Auto { seed };
+                    r.qual = QualSpec::Auto { seed };
+                }
+            }
+            let n = header.n_ref();
+            Case { doc: AlnDoc { header, records: vec![r.resolve_refs(n)] }, mid_sel }
+        })
+        .boxed()
+}
+
+fn huge_check(c: &Case) -> Verdict {
+    let mut fails = Fails::new();
+    let out = check_doc(&c.doc, c.mid_sel, Oracles { raw_eager: true, lazy: false }, &mut fails)?;
+    let p = bin_level_labels(labels(Pass::new(true, key_of(c)), &c.doc).label_if(out.bin_asserted > 0, "bin-asserted").label_if(out.blocks > 2, "bgzf-blocks>=2"), out.bin_levels);
+    fails.finish(p)
+}
+
+fn huge_lazy_check(c: &Case) -> Verdict {
+    let mut fails = Fails::new();
+    check_doc(&c.doc, c.mid_sel, Oracles { raw_eager: false, lazy: true }, &mut fails)?;
+    fails.finish(labels(Pass::new(true, key_of(c)), &c.doc))
+}
+
+// ---------------------------------------------------------------------------------------------
+// sub-check: iteration over the halves of a split lazy sequence, every split point
+// ---------------------------------------------------------------------------------------------
+
+#[derive(Clone, Debug, Serialize, Deserialize)]
+pub struct SubseqCase {
+    pub bases: B,
+}
+
+fn subseq_strategy(_tier: Tier) -> BoxedStrategy<SubseqCase> {
+    proptest::collection::vec(proptest::sample::select(aln::BAM_BASES.to_vec()), 0..=40).prop_map(|v| SubseqCase { bases: B(v) }).boxed()
+}
+
+fn subseq_check(c: &SubseqCase) -> Verdict {
+    let rec = AlnRecord { seq: SeqSpec::Bases(c.bases.clone()), ..AlnRecord::default() };
+    let header = sam::Header::default();
+    let buf = rec.to_noodles().map_err(|e| f("c05.harness.model", e))?;
+    let bytes = write_bam(&header, &[buf], "c05")?;
+    let (_, eager) = read_bam_eager(&bytes, "c05")?;
+    ensure_eq!(eager.len(), 1, "c05.rt.count", "records read back");
+    let ebases = eager[0].bases();
+    ensure_eq!(B(ebases.clone()), c.bases.clone(), "c05.rt.seq", "bases read back");
+    let mut r = bam::io::Reader::new(&bytes[..]);
+    r.read_header().map_err(|e| f("c05.read-header-error", format!("{e}")))?;
+    let mut lazy = bam::Record::default();
+    r.read_record(&mut lazy).map_err(|e| f("c05.lazy.read-error", format!("{e}")))?;
+    let seq = lazy.sequence();
+    let n = ebases.len();
+    let mut fails = Fails::new();
+    for mid in 0..=n {
+        let Some((l, r)) = seq.split_at_checked(mid) else {
+            fails.push("c05.lazy.sequence.split", format!("split_at_checked({mid}) is None for l_seq {n}"));
+            continue;
+        };
+        let (li, ri): (Vec<u8>, Vec<u8>) = (l.iter().collect(), r.iter().collect());
+        if li != ebases[..mid] || ri != ebases[mid..] {
+            fails.push("c05.lazy.subsequence.iter", format!("split_at_checked({mid}) of {:?}: left.iter() = {:?}, right.iter() = {:?}", B(ebases.clone()), B(li), B(ri)));
+        }
+        let lg: Vec<u8> = (0..l.len()).filter_map(|k| l.get(k)).collect();
+        let rg: Vec<u8> = (0..r.len()).filter_map(|k| r.get(k)).collect();
+        if lg != ebases[..mid] || rg != ebases[mid..] || l.len() != mid || r.len() != n - mid {
+            fails.push("c05.lazy.subsequence.get", format!("split_at_checked({mid}) of {:?}: get() gives {:?} / {:?}", B(ebases.clone()), B(lg), B(rg)));
+        }
+    }
+    fails.finish(Pass::new(n >= 2, key_of(c)).evals(n as u64 + 1).label_if(n % 2 == 1, "odd-seq").label_if(n == 0, "seq-missing"))
+}
+
+// ---------------------------------------------------------------------------------------------
+// sub-check 3: reject, never wrap
+// ---------------------------------------------------------------------------------------------
+
+/// One way to push a record outside what a BAM field can hold (or outside what the encoder
+/// validates). `must_err` classes cannot be represented at all: acceptance is itself a violation.
+#[derive(Clone, Debug, Serialize, Deserialize)]
+pub enum Defect {
+    /// name of `n` ≥ 255 bytes (l_read_name is one byte, NUL included)
+    NameLen(u32),
+    NameEmpty,
+    NameStar,
+    /// byte outside `[!-?A-~]` at a position selector
+    NameByte(u8, u16),
+    /// 1-based position 2^31 + k (pos − 1 does not fit an int32 for k ≥ 1)
+    Pos(u64),
+    MatePos(u64),
+    /// reference id n_ref + k (also beyond 2^31)
+    RefId(u64),
+    MateRefId(u64),
+    /// one operation of length 2^28 + k (28-bit field)
+    OpLen(u64, u16),
+    /// a score > 93 somewhere
+    Qual(u8, u16),
+    /// qualities one longer / shorter than the bases
+    QualLen(bool),
+    /// bases one longer / shorter than the CIGAR's read length
+    SeqLen(bool),
+    /// control byte in a Z value
+    AuxStr(u8),
+    /// odd-length or lower-case hex
+    AuxHex(bool),
+}
+
+impl Defect {
+    fn class(&self) -> &'static str {
+        match self {
+            Defect::NameLen(_) => "name-len",
+            Defect::NameEmpty => "name-empty",
+            Defect::NameStar => "name-star",
+            Defect::NameByte(..) => "name-byte",
+            Defect::Pos(_) => "pos",
+            Defect::MatePos(_) => "mate-pos",
+            Defect::RefId(_) => "ref-id",
+            Defect::MateRefId(_) => "mate-ref-id",
+            Defect::OpLen(..) => "op-len",
+            Defect::Qual(..) => "qual",
+            Defect::QualLen(_) => "qual-len",
+            Defect::SeqLen(_) => "seq-len",
+            Defect::AuxStr(_) => "aux-str",
+            Defect::AuxHex(_) => "aux-hex",
+        }
+    }
+
+    /// Apply to a valid record. Returns `(applied, must_err)`.
+    fn apply(&self, r: &mut AlnRecord, n_ref: usize) -> (bool, bool) {
+        match self {
+            Defect::NameLen(n) => {
+                let seed = r.name.clone().map(|b| b.0).unwrap_or_else(|| b"q".to_vec());
+                r.name = Some(B((0..*n as usize).map(|i| seed[i % seed.len()]).collect()));
+                (true, true)
+            }
+            Defect::NameEmpty => {
+                r.name = Some(B::default());
+                (true, false)
+            }
+            Defect::NameStar => {
+                r.name = Some(B::new("*"));
+                (true, false)
+            }
+            Defect::NameByte(b, sel) => {
+                let mut n = r.name.clone().map(|b| b.0).unwrap_or_else(|| b"q".to_vec());
+                let i = pick_idx(*sel, n.len());
+                n[i] = *b;
+                r.name = Some(B(n));
+                // a NUL inside the name cannot be represented (the field is NUL-terminated)
+                (true, *b == 0)
+            }
+            Defect::Pos(k) => {
+                r.pos = Some((1 << 31) + k);
+                (true, *k >= 1)
+            }
+            Defect::MatePos(k) => {
+                r.mate_pos = Some((1 << 31) + k);
+                (true, *k >= 1)
+            }
+            Defect::RefId(k) => {
+                r.ref_id = Some(n_ref as u64 + k);
+                (true, true)
+            }
+            Defect::MateRefId(k) => {
+                r.mate_ref_id = Some(n_ref as u64 + k);
+                (true, true)
+            }
+            Defect::OpLen(k, sel) => {
+                let mut ops = r.cigar_ops();
+                // use an operation that consumes no read base so that the sequence still fits
+                let cand: Vec<usize> = ops.iter().enumerate().filter(|(_, (c, _))| !aln::consumes_read(*c)).map(|(i, _)| i).collect();
+                if cand.is_empty() {
+                    ops.push((2, (1 << 28) + k));
+                } else {
+                    ops[cand[pick_idx(*sel, cand.len())]].1 = (1 << 28) + k;
+                }
+                r.cigar = CigarSpec::Ops(ops);
+                (true, true)
+            }
+            Defect::Qual(q, sel) => {
+                let mut quals = r.quals();
+                if quals.is_empty() {
+                    return (false, false);
+                }
+                let i = pick_idx(*sel, quals.len());
+                quals[i] = *q;
+                // all-0xFF is the "missing" encoding: if every score is 255 the value cannot be represented
+                let all_ff = quals.iter().all(|x| *x == 255);
+                r.qual = QualSpec::Scores(quals);
+                (true, all_ff)
+            }
+            Defect::QualLen(longer) => {
+                let mut quals = r.quals();
+                if quals.is_empty() {
+                    // missing qualities plus one score is a valid one-base record
+                    return (false, false);
+                }
+                if *longer {
+                    quals.push(30);
+                } else if quals.len() >= 2 {
+                    quals.pop();
+                } else {
+                    return (false, false);
+                }
+                r.qual = QualSpec::Scores(quals);
+                // one l_seq covers both: a different number of scores cannot be stored
+                (true, true)
+            }
+            Defect::SeqLen(longer) => {
+                if r.read_len() == 0 {
+                    return (false, false);
+                }
+                let mut b = r.bases();
+                if b.is_empty() {
+                    return (false, false);
+                }
+                if *longer {
+                    b.push(b'A');
+                } else if b.len() >= 2 {
+                    b.pop();
+                } else {
+                    return (false, false);
+                }
+                r.seq = SeqSpec::Bases(B(b));
+                r.qual = QualSpec::Scores(vec![]);
+                (true, false)
+            }
+            Defect::AuxStr(b) => {
+                r.aux.retain(|(t, _)| &t.0 != b"zs");
+                r.aux.push((Tag(*b"zs"), AuxValue::Str(B(vec![b'a', *b, b'b']))));
+                // a NUL inside a NUL-terminated string cannot be represented
+                (true, *b == 0)
+            }
+            Defect::AuxHex(odd) => {
+                r.aux.retain(|(t, _)| &t.0 != b"zh");
+                r.aux.push((Tag(*b"zh"), AuxValue::Hex(B::new(if *odd { "ABC" } else { "ab" }))));
+                (true, false)
+            }
+        }
+    }
+}
+
+fn defect() -> BoxedStrategy<Defect> {
+    let beyond = || prop_oneof![3 => 0u64..4, 1 => Just((1u64 << 31) - 1), 1 => Just(1u64 << 31), 1 => Just((1u64 << 32) - (1 << 31)), 1 => Just(1u64 << 32), 1 => 0u64..(1 << 33)];
+    prop_oneof![
+        3 => prop_oneof![Just(255u32), Just(256), Just(257), Just(510), Just(511), Just(512), 255u32..1200].prop_map(Defect::NameLen),
+        1 => Just(Defect::NameEmpty),
+        1 => Just(Defect::NameStar),
+        2 => (prop_oneof![Just(0u8), Just(b' '), Just(b'@'), Just(0x7f), Just(b'\t'), Just(0xff), any::<u8>().prop_filter("outside the name alphabet", |b| !(b.is_ascii_graphic() && *b != b'@'))], any::<u16>()).prop_map(|(b, s)| Defect::NameByte(b, s)),
+        3 => beyond().prop_map(Defect::Pos),
+        2 => beyond().prop_map(Defect::MatePos),
+        3 => beyond().prop_map(Defect::RefId),
+        2 => beyond().prop_map(Defect::MateRefId),
+        3 => (prop_oneof![3 => 0u64..3, 1 => Just((1u64 << 28) * 15), 1 => Just((1u64 << 32) - (1 << 28)), 1 => 0u64..(1 << 34)], any::<u16>()).prop_map(|(k, s)| Defect::OpLen(k, s)),
+        2 => (prop_oneof![Just(94u8), Just(95), Just(127), Just(128), Just(254), Just(255), 94u8..=255], any::<u16>()).prop_map(|(q, s)| Defect::Qual(q, s)),
+        2 => any::<bool>().prop_map(Defect::QualLen),
+        2 => any::<bool>().prop_map(Defect::SeqLen),
+        1 => prop_oneof![Just(0u8), Just(b'\t'), Just(b'\n'), Just(0x7f), Just(0x80), Just(0xff), 0u8..0x20].prop_map(Defect::AuxStr),
+        1 => any::<bool>().prop_map(Defect::AuxHex),
+    ]
+    .boxed()
+}
+
+#[derive(Clone, Debug, Serialize, Deserialize)]
+pub struct RejectCase {
+    pub header: AlnHeader,
+    /// valid records, each optionally damaged
+    pub records: Vec<(AlnRecord, Option<Defect>)>,
+}
+
+fn reject_strategy(tier: Tier) -> BoxedStrategy<RejectCase> {
+    let mut hp = HeaderParams::for_tier(tier);
+    hp.many_refs = 40;
+    let mut mode = Mode::bam();
+    mode.max_aux = 3;
+    mode.long_array = 20;
+    let slot = (aln::record_proto(&mode), prop_oneof![1 => Just(None), 3 => defect().prop_map(Some)]);
+    (aln::header_with(&hp), proptest::collection::vec(slot, 1..=4))
+        .prop_map(|(header, records)| {
+            let n = header.n_ref();
+            RejectCase { header, records: records.into_iter().map(|(r, d)| (r.resolve_refs(n), d)).collect() }
+        })
+        .boxed()
+}
+
+fn reject_check(c: &RejectCase) -> Verdict {
+    let n_ref = c.header.n_ref();
+    let header = c.header.to_noodles().map_err(|e| f("c05.harness.model", e))?;
+    let mut fails = Fails::new();
+    let mut w = bam::io::Writer::new(Vec::new());
+    w.write_header(&header).map_err(|e| f("c05.header-rejected", format!("BAM write_header: {e}")))?;
+    let mut accepted: Vec<AlnRecord> = Vec::new();
+    let mut pass = Pass::new(false, key_of(c));
+    let mut n_rejected = 0;
+    for (i, (r0, d)) in c.records.iter().enumerate() {
+        let mut r = r0.explicit();
+        let (applied, must_err) = match d {
+            Some(d) => d.apply(&mut r, n_ref),
+            None => (false, false),
+        };
+        let class = d.as_ref().filter(|_| applied).map(|d| d.class());
+        let buf = match r.to_noodles() {
+            Ok(b) => b,
+            Err(e) => return Err(f("c05.harness.model", e)),
+        };
+        match w.write_alignment_record(&header, &buf) {
+            Ok(()) => {
+                if must_err {
+                    fails.push(format!("c05.reject.accepted.{}", class.unwrap_or("?")), format!("record #{i} with {d:?} does not fit its BAM field but write_alignment_record returned Ok"));
+                } else if class.is_none() {
+                    pass = pass.label("valid-accepted");
+                } else {
+                    pass = pass.label("questionable-accepted");
+                }
+                accepted.push(r);
+            }
+            Err(e) => {
+                if class.is_none() {
+                    fails.push("c05.valid-rejected", format!("valid record #{i} rejected: {}", describe_err(&e)));
+                } else {
+                    n_rejected += 1;
+                    if let Some(c) = class {
+                        pass = pass.label(match c {
+                            "name-len" => "rejected:name-len",
+                            "name-empty" => "rejected:name-empty",
+                            "name-star" => "rejected:name-star",
+                            "name-byte" => "rejected:name-byte",
+                            "pos" => "rejected:pos",
+                            "mate-pos" => "rejected:mate-pos",
+                            "ref-id" => "rejected:ref-id",
+                            "mate-ref-id" => "rejected:mate-ref-id",
+                            "op-len" => "rejected:op-len",
+                            "qual" => "rejected:qual",
+                            "qual-len" => "rejected:qual-len",
+                            "seq-len" => "rejected:seq-len",
+                            "aux-str" => "rejected:aux-str",
+                            _ => "rejected:aux-hex",
+                        });
+                    }
+                }
+            }
+        }
+    }
+    w.try_finish().map_err(|e| f("c05.finish-error", format!("try_finish: {e}")))?;
+    let bytes = w.into_inner().into_inner();
+    // whatever was accepted must read back as written; a rejected record must leave no trace
+    match read_bam_eager(&bytes, "c05.reject") {
+        Err(mut e) => {
+            fails.0.append(&mut e);
+        }
+        Ok((_, got)) => {
+            if got.len() != accepted.len() {
+                fails.push("c05.reject.count", format!("{} records accepted, {} read back", accepted.len(), got.len()));
+            } else {
+                for (i, (g, want)) in got.iter().zip(&accepted).enumerate() {
+                    push_record_diffs(&mut fails, "c05.reject.readback", &format!("accepted record #{i}"), g, &want.normalized(Norm::BAM));
+                }
+            }
+        }
+    }
+    pass.nontrivial = n_rejected > 0;
+    pass = pass.label_if(n_rejected > 0 && !accepted.is_empty(), "reject+accept-mixed").label_if(n_ref == 0, "no-dictionary");
+    pass.labels.sort();
+    pass.labels.dedup();
+    fails.finish(pass)
+}
 
 pub fn property() -> Property {
-    Property { id: "C05", level: "exploration", rule: "", assumptions: vec![], subs: vec![], max_parallel: 16 }
+    Property {
+        id: "C05",
+        level: "exploration",
+        rule: "header (with/without dictionary, 0..many references) × 1..3 alignment records over the SAM data model (boundary-dense positions, all 9 CIGAR kinds, odd/even/zero sequence lengths over arbitrary bytes, every aux type at its range boundaries, arrays 0..300) written by bam::io::Writer; a second sub-check with 65 535..70 000 CIGAR operations; a third with records pushed outside a BAM field",
+        assumptions: vec![
+            "the harness's BGZF walker (miniz_oxide, crc32fast) and its BAM record framing / field decoder transcribed from SAMv1 §4.2 are correct".into(),
+            "reg2bin is the C routine of SAMv1 §5.3; the bin is asserted only where §4.2.1 is unambiguous: end ≤ 2^29, and not for reads flagged unmapped that nevertheless carry a CIGAR spanning >1 base".into(),
+            "aux field order is compared as written (noodles' Data equality is order-sensitive); the reserved tag CG is not generated as a user field".into(),
+        ],
+        subs: vec![
+            sub(
+                "roundtrip",
+                "non-trivial = some record has ≥1 aux field, ≥2 CIGAR ops or an odd sequence length; distinct by hash of the whole case; oracles: raw bytes = record (independent decoder), reg2bin, eager read = normalise(record), lazy accessors = eager, lazy → writer → eager",
+                strategy,
+                check,
+                40_000,
+                800_000,
+            )
+            .boxed(),
+            sub(
+                "huge_cigar",
+                "one record with 65 535..=70 000 CIGAR operations (all 9 kinds), with/without bases and qualities; always non-trivial; oracles: raw record carries kSmN + CG:B,I (or the plain CIGAR at exactly 65 535), eager read restores the CIGAR and hides CG",
+                huge_strategy,
+                huge_check,
+                160,
+                2_000,
+            )
+            .with(|o| o.max_shrink_iters = 120)
+            .boxed(),
+            sub("huge_cigar_lazy", "as huge_cigar; oracles: lazy accessors and RecordBuf::try_from_alignment_record = eager decode, lazy → writer → eager", huge_strategy, huge_lazy_check, 48, 400)
+                .with(|o| o.max_shrink_iters = 120)
+                .boxed(),
+            sub(
+                "lazy_subsequence",
+                "0..=40 bases; every split point of bam::record::Sequence::split_at_checked: iter() and get() of both halves = the eager bases; non-trivial = ≥2 bases",
+                subseq_strategy,
+                subseq_check,
+                400,
+                4_000,
+            )
+            .boxed(),
+            sub(
+                "reject",
+                "1..4 valid records, each optionally pushed outside a BAM field (name ≥255 bytes, position ≥2^31+1, reference id ≥ n_ref, op length ≥2^28, score/length mismatches, unrepresentable strings); non-trivial = ≥1 record was rejected; accepted records must read back equal, rejected ones leave no trace",
+                reject_strategy,
+                reject_check,
+                30_000,
+                600_000,
+            )
+            .boxed(),
+        ],
+        max_parallel: 16,
+    }
 }
